@@ -24,9 +24,15 @@
   * `C09_prose_same_meaning_partial` — the rendered text parses to the same document as the original text
     under every token configuration (hence identical HTML and identical link definitions);
   * `C09_prose_exact_markdown` — the hypotheses on the token lists hold for the lists the
-    `MarkdownRenderer` of the working tree installs (`Config.markdown`, regenerated from /repo).
+    `MarkdownRenderer` of the working tree installs (`Config.markdown`, regenerated from /repo);
+  * `C09_quoted_prose_exact_partial`, `C09_quoted_prose_exact_markdown` — the same documents inside `k`
+    nested block quotes written the way the renderer writes them ("> " before every line), via C04;
+  * `C09_blocks_exact_partial`, `C09_blocks_roundtrip_markdown` — second fragment: prose paragraphs, ATX
+    headings `# text` and thematic breaks `***`/`---`/`___` separated by single empty lines, inside `k`
+    nested block quotes (k ≥ 0): exact reproduction, idempotence, same meaning.
 -/
 import Mistletoe.Proofs.MdRound
+import Mistletoe.Proofs.MdRoundBlocks
 import Mistletoe.Props.C14
 namespace Mistletoe.Props.C09
 open Mistletoe Mistletoe.Py Mistletoe.Block Mistletoe.Inline Mistletoe.InertInline Mistletoe.MdRound
@@ -276,6 +282,93 @@ theorem C09_quoted_prose_exact_markdown (cfg : Document.Cfg) (hcfg : Config.mark
   rw [hty] at h
   exact ⟨d, h, h3⟩
 
+/-! ### paragraphs, ATX headings and thematic breaks, inside any number of block quotes -/
+
+/-- a prose paragraph as a block of the second fragment: the same normal form -/
+theorem item_para_ok (q : List Str) : (Blk.para q).ok = normalPara q := rfl
+
+/-- **Paragraphs, ATX headings and thematic breaks in the renderer's normal form, inside `k` nested block
+    quotes, are reproduced byte for byte.**  The blocks `it, rest` (`Blk.ok`: prose paragraphs as above;
+    headings `#…# text` of level 1–6 whose text is inline-inert, without `#`, without whitespace at either
+    end; thematic breaks `***`, `---`, `___`) are separated by single empty lines; every line carries `k`
+    markers "> " (k = 0: no quote); the lines are tab-free; the block token types are the Markdown renderer's
+    list, the span classes are covered ones with `LineBreak` once.  Then `Document(lines)` succeeds, its
+    children are `k` nested `Quote`s around `Paragraph` / `Heading` / `ThematicBreak` tokens with `BlankLine`s
+    between them, and `MarkdownRenderer().render` (no line limit) gives back exactly the concatenated lines. -/
+theorem C09_blocks_exact_partial (cfg : Document.Cfg) (hty : cfg.block.types = markdownTypes)
+    (ht : ∀ t ∈ cfg.span, inertClass t = true) (hc : cfg.span.count .lineBreak = 1)
+    (it : Blk) (rest : List Blk) (hok : it.ok = true) (hrest : ∀ x ∈ rest, x.ok = true)
+    (hnt : ∀ l ∈ itemsLines it rest, '\t' ∉ l) (k : Nat)
+    (o : Markdown.Opts) (ho : o.maxLineLength = none) (gas : Nat) :
+    ∃ d, Document.parseLines cfg (gas + (2 * rest.length + 14) + k * 8) (quoted k (itemsLines it rest)) = .ok d ∧
+      d.kids = qBlocks 1 (itemBlocks 1 it rest) k ∧
+      Markdown.renderRes o d = .ok (quoted k (itemsLines it rest)).flatten ∧
+      Markdown.render o d = (quoted k (itemsLines it rest)).flatten := by
+  obtain ⟨s, ss', hss⟩ : ∃ s ss', itemsLines it rest = s :: ss' := by
+    cases hj : itemsLines it rest with
+    | nil => exact absurd hj (itemsLines_ne it rest hok)
+    | cons s ss' => exact ⟨s, ss', rfl⟩
+  have hnum : C14.numbered 0 (itemsLines it rest) = { s := s, origin := 1 } :: C14.numbered 1 ss' := by
+    rw [hss, C14.numbered_cons]
+  have h0 : ∀ st, tokenizeBlock cfg.block (gas + (2 * rest.length + 14)) ({ s := s, origin := 1 } :: C14.numbered 1 ss') 1 st =
+      .ok ({ entries := itemEntries 1 1 it rest, loose := false }, st) := by
+    intro st
+    have := tokenize_items cfg.block hty it rest hok hrest gas st
+    rwa [hnum] at this
+  have hnt' : ∀ l ∈ ({ s := s, origin := 1 } : Line) :: C14.numbered 1 ss', '\t' ∉ l.s := by
+    intro l hl
+    rw [← hnum] at hl
+    exact hnt _ (C14.numbered_mem _ _ _ hl)
+  obtain ⟨st', hq, hd⟩ := tokenize_qLines cfg.block
+    [.linkRefDefBlock, .blankLine, .htmlBlock, .blockCode, .heading] [.codeFence, .thematicBreak, .list, .table, .paragraph]
+    (by rw [hty]; rfl) (by decide) (by decide) _ _ hnt' 1 _ _ h0 k {}
+  have hphase : blockPhase cfg.block (gas + (2 * rest.length + 14) + k * 8) (qStrs k (itemsLines it rest)) =
+      .ok ({ entries := qEntries 1 1 (itemEntries 1 1 it rest) k, loose := false }, st') := by
+    have e : ∀ g ls, blockPhase cfg.block g ls = tokenizeBlock cfg.block g (C14.numbered 0 ls) 1 {} := fun _ _ => rfl
+    rw [e, numbered_qStrs, hnum]
+    exact hq
+  have hdefs : st'.defs = [] := hd
+  have hmk := mkBlocks_qEntries cfg (Document.footnotesOf []) 1 1 _ _
+    (mkBlocks_itemEntries cfg (Document.footnotesOf []) ht hc rest it 1 1 hok hrest) k
+  have hout := renderBlocks_qBlocks o 1 _ _ (renderBlocks_items o rest it 1 hok hrest) k
+  have htext : Markdown.joinLines (qStrs k (itemsOut it rest)) = (qStrs k (itemsLines it rest)).flatten := by
+    rw [joinLines_eq, qStrs_nl, itemsOut_lines rest it hok hrest]
+  have hres : Markdown.renderRes o { kids := qBlocks 1 (itemBlocks 1 it rest) k, footnotes := Document.footnotesOf [] } =
+      .ok (qStrs k (itemsLines it rest)).flatten := by
+    simp only [Markdown.renderRes, ho, hout, htext]
+  refine ⟨{ kids := qBlocks 1 (itemBlocks 1 it rest) k, footnotes := Document.footnotesOf [] }, ?_, rfl, hres, ?_⟩
+  · unfold Document.parseLines
+    rw [hphase]
+    simp only [hdefs]
+    rw [hmk]
+  · simp only [Markdown.render, hres]
+
+/-- **The same from a `str`, for the token lists of the working tree** (`Config.markdown`), with the two
+    corollaries: rendering again reproduces the text, and the rendered text parses like the original under
+    every configuration (same document, same link definitions, same HTML). -/
+theorem C09_blocks_roundtrip_markdown (cfg : Document.Cfg) (hcfg : Config.markdown = some cfg)
+    (it : Blk) (rest : List Blk) (hok : it.ok = true) (hrest : ∀ x ∈ rest, x.ok = true)
+    (hnt : ∀ l ∈ itemsLines it rest, '\t' ∉ l) (k : Nat)
+    (o : Markdown.Opts) (ho : o.maxLineLength = none) (gas : Nat) :
+    ∃ d, Document.parse cfg (gas + (2 * rest.length + 14) + k * 8) (quoted k (itemsLines it rest)).flatten = .ok d ∧
+      Markdown.render o d = (quoted k (itemsLines it rest)).flatten ∧
+      (∃ d', Document.parse cfg (gas + (2 * rest.length + 14) + k * 8) (Markdown.render o d) = .ok d' ∧
+        Markdown.render o d' = Markdown.render o d) ∧
+      (∀ (cfg' : Document.Cfg) (g : Nat),
+        Document.parse cfg' g (Markdown.render o d) = Document.parse cfg' g (quoted k (itemsLines it rest)).flatten) ∧
+      (∀ (hopts : Html.Opts) (g : Nat),
+        Config.renderHtml hopts g (Markdown.render o d) = Config.renderHtml hopts g (quoted k (itemsLines it rest)).flatten) := by
+  obtain ⟨_, ht, hc⟩ := C14.C14_config_covered cfg (Or.inr (Or.inl hcfg))
+  have hty : cfg.block.types = markdownTypes := by
+    have := C14.C14_config_current.2
+    rw [hcfg] at this
+    simpa using this
+  have h1 := qStrs_oneLine k _ (items_oneLine rest it hok hrest)
+  obtain ⟨d, h, _, _, h3⟩ := C09_blocks_exact_partial cfg hty ht hc it rest hok hrest hnt k o ho gas
+  rw [← parse_lines cfg _ _ h1] at h
+  refine ⟨d, h, h3, ⟨d, ?_, rfl⟩, fun _ _ => by rw [h3], fun _ _ => by rw [h3]⟩
+  rw [h3]; exact h
+
 /-! ### the token lists of the working tree -/
 
 /-- **For the lists `MarkdownRenderer` installs in the working tree** (`Config.markdown`, regenerated from
@@ -356,6 +449,30 @@ example : (Document.parse mdCfg 35 (L "> > first line\n> > second\n> > \n> > nex
     (fun d => Markdown.renderRes {} d) = .ok (L "> > first line\n> > second\n> > \n> > next paragraph\n") := by decide +kernel
 example : (quoted 2 (docLines [L "first line\n", L "second\n"] [[L "next paragraph\n"]])).flatten =
     L "> > first line\n> > second\n> > \n> > next paragraph\n" := by decide +kernel
+
+/-- headings, a thematic break and paragraphs inside one block quote: the theorem applies … -/
+def blocks : List Blk := [.para para2, .hr '*', .heading 2 (L "Sub-title, with * and _ inside"), .para para3]
+
+theorem blocks_ok : (Blk.heading 1 (L "Title: a_b")).ok = true ∧ ∀ x ∈ blocks, x.ok = true := by decide +kernel
+
+example : ∃ d, Document.parseLines mdCfg 30 (quoted 1 (itemsLines (.heading 1 (L "Title: a_b")) blocks)) = .ok d ∧
+    Markdown.render {} d = (quoted 1 (itemsLines (.heading 1 (L "Title: a_b")) blocks)).flatten := by
+  obtain ⟨d, h1, _, _, h3⟩ := C09_blocks_exact_partial mdCfg rfl mdCfg_ok.2.2.1 mdCfg_ok.2.2.2
+    (.heading 1 (L "Title: a_b")) blocks blocks_ok.1 blocks_ok.2 (by decide +kernel) 1 {} rfl 0
+  exact ⟨d, h1, h3⟩
+
+/-- … and the kernel evaluation of parser and renderer on such a document agrees -/
+example : (Document.parse mdCfg 30 (L "# Title: a_b\n\nc < d\n\n***\n\n## Sub-title, with * and _ inside\n\nlast line.\n")).bind
+    (fun d => Markdown.renderRes {} d) =
+      .ok (L "# Title: a_b\n\nc < d\n\n***\n\n## Sub-title, with * and _ inside\n\nlast line.\n") := by decide +kernel
+example : (itemsLines (.heading 1 (L "Title: a_b")) [.para [L "c < d\n"], .hr '*']).flatten = L "# Title: a_b\n\nc < d\n\n***\n" := by
+  decide +kernel
+
+/-- outside the fragment: a closing sequence is normalised away only in its spacing, a setext heading keeps
+    its underline — both are reproduced, but by other clauses of the renderer than the theorem covers;
+    and a heading with leading spaces is not reproduced -/
+example : (Document.parse mdCfg 30 (L "  # Title ##\n")).bind (fun d => Markdown.renderRes {} d) = .ok (L "# Title ##\n") := by
+  decide +kernel
 
 /-- `mdCfg` is the configuration of the working tree (so the examples are about `Config.markdown`) -/
 example : Config.markdown.map (fun c => (c.block.types, c.block.tableInterrupt, c.span)) =
